@@ -58,3 +58,39 @@ def register(reg):
       "tables <= 6 rows; thorough adds all key sequences of length <= 5 over [None, True, 1, 'a'] x 34 probes; lookup index "
       "maintenance and type conversion of lookup keys are not modelled (C13/C05).",
       "Lean 4 theorems (binary search over a prefix-closed predicate + lexicographic strict weak order) + differential correspondence through a live engine")
+
+  reg("C40", "proof",
+      "TreeConverter/parse_predicate_formula is modelled node for node on Python's own AST (Grist.Predicate.convert / "
+      "parseFormula). Proved for all expressions and environments: convert_faithful / parse_faithful (evaluating the tree "
+      "with the documented node semantics = evaluating the expression, same value or same error class), "
+      "accepted_iff_supported + unsupported_rejected (a node kind outside the list anywhere in the expression makes the "
+      "converter raise), tree_json_safe_iff / tree_json_safe_partial (tree is JSON iff all constants are JSON scalars; the "
+      "full clause is false of the code: tree_json_safe_full_is_false, witness b'x' replayed), comment_node / "
+      "comment_transparent / comment_stripped. Differentially validated only: that the model equals the real converter "
+      "(Python ast of the text -> model vs parse_predicate_formula on generated formulas with trivia, a non-subset "
+      "stream, odd constants) and that the model's operator semantics are Python's (eval of the text, an independent "
+      "naive evaluator of the real tree, and an operator table over 36x36 values).",
+      "parameters: Python's tokenizer/parser and the textual $x->rec.x replacement; tuples read as lists (visit_Tuple); "
+      "value universe None/bool/int/float/str/list/records/len/str.lower/str.upper with float %, str %, identity of "
+      "non-singletons and |int|>2^53 mixed with floats unmodelled; JS evaluator's And->boolean out of scope.",
+      "Lean 4 theorems by mutual structural induction over the nested AST + differential correspondence")
+
+  reg("C33", "proof",
+      "import_json (dumps / Tables.add_row / _is_included / _dump_table / _transpose / first_available_key) is modelled on an own JSON "
+      "inductive. Proved for all documents and all include/exclude options: one value per row in every dumped column and distinct "
+      "table names (columns_equal_length, dumps_columns_equal_length, table_names_distinct); row ids are positions (ids_consecutive); "
+      "the rows hold the input recursively -- scalars in the cell of their key, nested objects as sub-table rows referenced from the "
+      "parent's cell, array elements as sub-table rows in order with the parent's reference as back-reference (import_stores_input, "
+      "nested_ref, array_member_elems, array_parent_ref); exactly one row per top-level item / array element (addElems_rows_self, "
+      "main_table_rows); per table the scalar cells are exactly the kept scalars of the values of that path in document order "
+      "(scalars_once) and over all tables the multiset of scalar cells is that of the (kept) input scalars (cells_are_kept_scalars, "
+      "cells_are_input_scalars); every key of a row is a dumped column carrying the rows' cells (dump_value_columns). Two dump-level "
+      "clauses are false of the code and proved only in partial form with machine-checked counter-examples (backref_column_partial: "
+      "key-path collisions give one back-reference column for parents in different tables; dump_shows_rows_partial: a table whose rows "
+      "hold no cell is dumped without columns). Differentially validated: the model against import_json.dumps / parse_file on the full "
+      "table structure (names, order, column ids, order, types, cells), and a literal append-then-fill variant of the model against "
+      "the proved one; the property clauses are evaluated on the real output by an input-guided walk with exactly-once accounting.",
+      "numbers opaque (int/float both Numeric), strings = Unicode scalar values, json.loads itself not modelled (its last-wins "
+      "handling of repeated keys is), object keys are str; first_available_key's unbounded loop has fuel #columns+1 in the model "
+      "(exhaustion would surface as a model error in the diff); two known findings are keyed by signature in known_findings.json.",
+      "Lean 4 theorems by mutual induction over the JSON value (custom induction principle) + differential correspondence + direct oracle")
